@@ -14,6 +14,12 @@ C01 - fixing never changes what the VHDL means (structural clauses).
                      (get_token_value()); the balanced parenthesis pair of if_002.  Token duplication
                      (copy.deepcopy) is allowed only in the two declaration-splitting fixes.
                      Everything else is tabled with a reason or is a violation.
+  C01.wholesale      who may replace a whole region.  Every set_tokens(<list that is not derived from the whole
+                     region>) reachable from a fix - set_tokens([]), [lTokens[0]], [first, ws, last] - deletes
+                     whatever the region holds except the re-listed elements.  Each such site, *together with the
+                     conditions that dominate it*, must be tabled with the reason why the deleted elements are
+                     layout or the item the rule is documented to remove; a new site, or a tabled site whose
+                     guard changed, is a violation until it has been looked at.
   C01.literal-guard  case rules never reach a checker for a string/character literal or an extended
                      identifier.
   C01.splice         only vhdlFile's own methods write the token list; update() applies updates last
@@ -67,6 +73,7 @@ def run(ctx):
     r = Result("C01")
     r.load_table("c01.json")
     r.rule("C01.construct", "code tokens are created only by structure rules, and only as documented redundant elements with the parser's own literal")
+    r.rule("C01.wholesale", "whole-region replacements are enumerated with their guards and each is shown to delete only layout or the documented item")
     r.rule("C01.literal-guard", "case rules skip string/character literals and extended identifiers")
     r.rule("C01.splice", "single writer of the token list; consistent splice bounds and order")
     r.rule("C01.late-phases", "capitalisation fixes are structurally inert; naming/length report-only")
@@ -79,6 +86,22 @@ def run(ctx):
     summ = Summaries(p, cg)
     fx = FixEffects(ctx, summ)
     ct = ClassifierTable(p)
+
+    # ---- whole-region replacements
+    from .c02 import wholesale_sites
+
+    fix_roots = [m for ci in p.classes.values() for name, m in ci.methods.items() if name == "_fix_violation" and ci.key != "vsg.rule:Rule"]
+    n_whole = 0
+    for fi, n, kk, guards in wholesale_sites(p, cg.reachable(fix_roots)):
+        n_whole += 1
+        ent = r.tabled("C01.wholesale", kk)
+        if ent:
+            r.ok("C01.wholesale", kk, ent.get("reason", "")[:110])
+        else:
+            r.fail("C01.wholesale", kk, "%s replaces its whole region by `%s`: everything else in the region is deleted, and this site with these guards has not been shown to delete only layout or the item the rule is documented to remove" % (fi.key, norm(n.args[0])[:40]), fi.loc(n))
+    r.extra["wholesale_replacement_sites"] = n_whole
+    if n_whole < 15:
+        raise AnalysisError("only %d whole-region replacement sites found" % n_whole)
 
     n_sites = 0
     # ---- per rule
@@ -232,6 +255,12 @@ def _paren_pair(code, x):
 
 
 VARIANTS = [
+    Variant("C01", "optional-item removal keeps the previous token only if it is a carriage return", "fire",
+            [("vsg/rules/utils.py", "    if isinstance(lTokens[0], parser.whitespace):\n        oViolation.set_tokens([])\n    else:\n        oViolation.set_tokens([lTokens[0]])", "    if isinstance(lTokens[0], parser.carriage_return):\n        oViolation.set_tokens([lTokens[0]])\n    else:\n        oViolation.set_tokens([])")], rule="C01.wholesale"),
+    Variant("C01", "a new fix empties its region", "fire",
+            [("vsg/rules/split_line_at_token.py", "    def _fix_violation(self, oViolation):\n", "    def _fix_violation(self, oViolation):\n        if len(oViolation.get_tokens()) > 40:\n            oViolation.set_tokens([])\n            return\n")], rule="C01.wholesale"),
+    Variant("C01", "twin: optional-item removal with the branches swapped", "silent",
+            [("vsg/rules/utils.py", "    if isinstance(lTokens[0], parser.whitespace):\n        oViolation.set_tokens([])\n    else:\n        oViolation.set_tokens([lTokens[0]])", "    if not isinstance(lTokens[0], parser.whitespace):\n        oViolation.set_tokens([lTokens[0]])\n    else:\n        oViolation.set_tokens([])")]),
     Variant("C01", "optional keyword inserted with a wrong spelling", "fire",
             [("vsg/rules/architecture/rule_010.py", 'token.end_architecture_keyword("architecture")', 'token.end_architecture_keyword("entity")')], rule="C01.construct", key="architecture_010"),
     Variant("C01", "optional-item rule inserts a non-optional keyword", "fire",
